@@ -36,7 +36,7 @@ def _panic(ops, kind, why):
 
 
 # Defects of astutil demonstrated by this check on the unchanged tree (minimal inputs and fixes in the report).
-PROPOSED_KNOWN = (
+_PROPOSED_BEFORE_FIXES = (
     _walk("Call", "Func", " (the called function expression; walk_test.go pins this)")
     + _walk("Func", "Ident") + _walk("Func", "Type") + _walk("Func", "Body", " (the Block node itself; only its children are walked)")
     + _walk("FuncType", "Parameters", " identifiers (only parameter types are walked)")
@@ -214,3 +214,8 @@ def selftest(ctx, obs):
 def replay(ctx, path):
     c = json.loads((path / "case.json").read_text())
     return run(ctx, only={c["name"]})
+
+
+# The defects found by this check were fixed in /repo except those whose repair changes expectations pinned by the
+# existing tests; those are listed in known-findings.json (kind "known").  _PROPOSED_BEFORE_FIXES documents the full set.
+PROPOSED_KNOWN = []
